@@ -6,6 +6,9 @@ ROOT = os.path.dirname(os.path.dirname(os.path.abspath(__file__)))
 PAGER = "TLA+ mechanism model Pager.tla checked exhaustively by TLC (all interleavings of readers, savepoint handles and every critical section of the writer), "
 
 CLAIMS = {
+ "C08": dict(cat="fault_enumeration", tech="TLA+ spec (Kv.tla + FaultyStep of KvTrace.tla) as oracle for fault enumeration: every sampled backend call of recorded histories fails (permanently / once), the recorded calls and post-fault crash/reopen observations are validated by TLC trace validation",
+   text="fault enumeration judged by the TLA+ oracle: no panic, error or specified result, writes refused after a returned error, acknowledged commits present, recovery to one commit point with the failed commit entirely in or out.",
+   note="trusted: TLC, harness; failing calls have no partial effect on the storage", ref="DESIGN.md 4/C08"),
  "C14": dict(cat="model_checking", tech="TLA+ spec Buddy.tla checked by TLC; exhaustive (state, operation) tour of the real allocator and random walks validated by TLC trace validation (BuddyTrace.tla)",
    text="every (length, free-set) state of a capacity-8 region x every operation is executed on the real buddy allocator and validated by TLC, including the allocator's own free-block structure (must be canonical: maximal merged blocks) and refusal only when nothing fits; random walks on larger capacities; region tracker invariant on multi-region database histories.",
    note="allocator driven through a cfg(redb_verif) wrapper; shrinking only with a free tail (asserted by the implementation)", ref="DESIGN.md 4/C14"),
